@@ -91,6 +91,36 @@ pub fn zlib_far_matches(data: &[u8], start: usize, dist: usize) -> Vec<u8> {
     v
 }
 
+/// A zlib stream for CONSTANT data: one fixed-Huffman block, a literal followed by <length 258, distance 1> matches and literals for the rest.
+/// (1032 bytes of data per 5 compressed bytes: the inflater can be holding hundreds of bytes of output back when its input has run dry.)
+pub fn zlib_fixed_run(data: &[u8]) -> Vec<u8> {
+    assert!(data.windows(2).all(|w| w[0] == w[1]));
+    let mut v = vec![0x78, 0x01];
+    let mut w = BitW::new();
+    w.bits(1, 1);
+    w.bits(1, 2);
+    let mut i = 0;
+    if !data.is_empty() {
+        w.fixed_lit(data[0] as u32);
+        i = 1;
+    }
+    while i < data.len() {
+        if data.len() - i >= 258 {
+            w.fixed_lit(285);
+            w.code(0, 5); // distance 1
+            i += 258;
+        } else {
+            w.fixed_lit(data[i] as u32);
+            i += 1;
+        }
+    }
+    w.fixed_lit(256);
+    w.align();
+    v.extend_from_slice(&w.out);
+    v.extend_from_slice(&adler32(data).to_be_bytes());
+    v
+}
+
 /// stored blocks of `block` bytes each, returned as the byte strings to put into consecutive IDAT chunks
 /// (chunk boundaries = block boundaries)
 pub fn zlib_stored_pieces(data: &[u8], block: usize) -> Vec<Vec<u8>> {
@@ -341,6 +371,17 @@ pub fn run(a: &Args) {
             o.distinct(&format!("al-{}-{}-{}-{:?}", w, h, rpb, ff));
             check_image(&mut o, &im, &[0], false);
             check_image(&mut o, &im, &[rng.range(1, 3000) as usize], false);
+        }
+    }
+    // (5) highly compressible images a little above 32 / 64 / 128 KiB of scanline data: the inflater releases the last scanlines only with the
+    //     flush at the chunk that follows the last IDAT (the rows are then buffered while the data sequence is already over)
+    for (w, producer) in [(63u32, 0u8), (63, 1), (31, 0), (127, 1), (15, 2), (255, 0)] {
+        for h in crate::gen::heights_just_above_buffer_sizes(w as usize + 1, if thorough { 9 } else { 5 }) {
+            let b = crate::gen::held_back_tail_file(w, h, 0, producer, &[], &[]);
+            let im = Img { name: b.name.clone(), file: b.bytes.clone(), spec: b.spec.clone(), z: vec![], want: b.frames[0].pixels.clone() };
+            o.count("held-back-tails");
+            check_image(&mut o, &im, &[0], false);
+            if h % 3 == 0 { check_image(&mut o, &im, &[rng.range(1, 40) as usize], false); }
         }
     }
     ubuf_cases(&mut o, &mut rng, a.tier == "thorough");
